@@ -1,5 +1,5 @@
 \* C02 quick: simulated merge trees, exact-statistics variant
-\* run by hand:  cd spec && tlc -workers 8 RunGenSketch.tla -config cfg/C02__RunGenSketch__simulated_merge_trees_exact_statistics_variant.cfg -simulate num=125 -depth 11 -seed 2   (root module generated by the harness: see the .tla file next to this one; copy it to spec/ first)
+\* run by hand:  cd spec && tlc -workers 8 RunGenSketch.tla -config cfg/C02__RunGenSketch__simulated_merge_trees_exact_statistics_variant.cfg -simulate num=125 -depth 11 -seed 1   (root module generated by the harness: see the .tla file next to this one; copy it to spec/ first)
 INIT GenInit
 NEXT GenNext
 CONSTANTS
